@@ -3,9 +3,9 @@ from props import S
 CFG = {
     "properties_file": "Properties/C04.v",
     "corr_files": ["Corr/C04.v", "Corr/C04z.v", "Corr/SRV.v"],
-    "streams": [S("C04", "drive_nfs", 120, 5000), S("C04z", "drive_nfs", 60, 2500),
+    "streams": [S("C04", "drive_nfs", 120, 3000), S("C04z", "drive_nfs", 60, 1000),
                 # the full-fidelity stream: whole decoded replies incl. times, backend tree and mutating backend calls vs Model/Srv.v
-                S("SRV", "drive_nfs", 80, 4000)],
+                S("SRV", "drive_nfs", 80, 1500)],
     "rule": "(stream C04z: the same histories over a backend whose lstat reports size 0 for symbolic links, oracle only) request histories weighted towards attribute-carrying procedures (LOOKUP GETATTR SETATTR READDIRPLUS ACCESS READ "
             "READLINK WRITE CREATE MKDIR SYMLINK REMOVE RENAME ...) over trees with files, directories, symlinks to files and "
             "directories and dangling symlinks; SETATTR modes incl. 04755, 0x4000, 1<<27, 0170000|0644; all cache settings and "
